@@ -64,12 +64,21 @@ type fieldGroupGenerator struct {
 	// This field group represents a Thrift exception.
 	IsException bool
 
+	// This field group represents the arguments or the result of a function:
+	// MethodName and EnvelopeType methods are generated for it.
+	IsEnveloped bool
+
+	// Whether a MarshalLogObject method is generated for this field group.
+	hasZap bool
+
 	Doc string
 }
 
 func (f fieldGroupGenerator) checkReservedIdentifier(name string) error {
 	_, match := reservedIdentifiers[name]
 	match = match || (f.IsException && (name == "Error" || name == "ErrorName"))
+	match = match || (f.IsEnveloped && (name == "MethodName" || name == "EnvelopeType"))
+	match = match || (f.hasZap && name == "MarshalLogObject")
 	if match {
 		return fmt.Errorf("%q is a reserved ThriftRW identifier", name)
 	}
@@ -80,6 +89,8 @@ func (f fieldGroupGenerator) Generate(g Generator) error {
 	if err := verifyUniqueFieldLabels(f.Fields); err != nil {
 		return err
 	}
+
+	f.hasZap = !checkNoZap(g)
 
 	if err := f.DefineStruct(g); err != nil {
 		return err
